@@ -12,20 +12,11 @@ ORACLES = {
 EXTRA = []
 
 
-def run(res):
-    core.std_proof_coverage(res, "C13")
-    l1.run(res, "C13", "core", "Model.Core Model.CoreOracle", "", "", ORACLES + EXTRA,
-           "the socket core behaves differently from the model (Model/Core.v): hook events, protocol notifications, transport closes, dial attempts, "
-           "return values, ids in use or pipes listed",
-           gocmd="l2core", prelude="Definition step_rec := kstep_rec.\n",
-           check_fn="(fun h => kcheck_from %s %s kinit 0 h)" % (IDFIX, DIALFIX),
-           ambig_fn="(fun h => kambiguous_from %s %s kinit 0 h)" % (IDFIX, DIALFIX))
-    # "the socket, its listener and its dialer carry on accepting and redialling" on the real stream transports: a peer that
-    # hangs up or stalls at any point of the handshake is that connection's failure only (harness/cmd/stream)
-    from .. import stream
-    res.coverage["transport_handshake_scenarios"] = stream.run(res, "C13")
+def run_allocator(res, pid):
+    """The process-wide pipe ID allocator against Model/PipeId.v (harness/cmd/c13ids): exact IDs around every counter boundary, and the
+    lifetime of an ID (held until the Detached callback has returned).  Also run by C08: raw BUS uses ID 0 as "no origin"."""
     # the pipe ID allocator itself, around every boundary of its counter (verif hooks position the counter)
-    out, defs, (rc, so, se) = core.gen_and_eval("C13_ids", "c13ids",
+    out, defs, (rc, so, se) = core.gen_and_eval(pid + "_ids", "c13ids",
         "From MV Require Import Lib.Check Model.PipeId.\nOpen Scope N_scope.\nOpen Scope list_scope.\n",
         "Fixpoint nl_eqb (a b : list N) : bool := match a, b with [], [] => true | x :: a', y :: b' => (x =? y) && nl_eqb a' b' | _, _ => false end.\n"
         "Definition id_ok (c : list idop * list N) : bool := nl_eqb (id_run {| a_used := []; a_next := 0 |} (fst c)) (snd c).\n"
@@ -57,6 +48,21 @@ def run(res):
             res.violation("ids:allocator", "the pipe IDs handed out by the allocator for this sequence of counter positions / allocations / releases differ from Model/PipeId.v "
                           "(zero, a 32-bit value, an ID still in use, or simply another ID)",
                           {"case": its[i][:3000] if i < len(its) else "?", "format": "([operations], [IDs returned by Get in order])", "model": "Model/PipeId.v id_run"})
+
+
+def run(res):
+    core.std_proof_coverage(res, "C13")
+    l1.run(res, "C13", "core", "Model.Core Model.CoreOracle", "", "", ORACLES + EXTRA,
+           "the socket core behaves differently from the model (Model/Core.v): hook events, protocol notifications, transport closes, dial attempts, "
+           "return values, ids in use or pipes listed",
+           gocmd="l2core", prelude="Definition step_rec := kstep_rec.\n",
+           check_fn="(fun h => kcheck_from %s %s kinit 0 h)" % (IDFIX, DIALFIX),
+           ambig_fn="(fun h => kambiguous_from %s %s kinit 0 h)" % (IDFIX, DIALFIX))
+    # "the socket, its listener and its dialer carry on accepting and redialling" on the real stream transports: a peer that
+    # hangs up or stalls at any point of the handshake is that connection's failure only (harness/cmd/stream)
+    from .. import stream
+    res.coverage["transport_handshake_scenarios"] = stream.run(res, "C13")
+    run_allocator(res, "C13")
     res.coverage["trusted_base"] = core.COQ_TRUSTED + [
         "hand-written model Model/Core.v tied by correspondence at quiescence granularity against the real core.socket/dialer/listener/pipe over a virtual transport "
         "(harness/vt, registered through the public transport.RegisterTransport) and a recording mock protocol (harness/mproto)",
